@@ -59,6 +59,8 @@ UNION_MEMBERS = [
     ["int", "float"],
     ["complex", "Duck"],
     ["ndarray", "np.bool_", "np.number", "bool", "int", "float", "complex"],  # ArrayLike without jax.Array
+    ["nest:Float:Duck:a", "nest:Int:Duck:a"],  # members that print alike once wrapped (the name records the outer category only)
+    ["Duck", "DuckNamesake"],  # two different array classes with the same name
 ]
 TYPEVARS = [
     ("bound", ["Duck"]),
@@ -71,6 +73,7 @@ TYPEVARS = [
     ("constraints", ["Duck", "float"]),
     ("constraints", ["int", "float"]),
     ("constraints", ["Duck", "nest:Float:ndarray:a"]),
+    ("constraints", ["nest:Float:Duck:a", "nest:Bool:Duck:a"]),
     ("free", []),
 ]
 
@@ -107,6 +110,8 @@ class Env:
         self.duck_vals = [Duck(sh, dt) for dt in names for sh in SHAPES]
         self.np_vals = [np.zeros(sh, getattr(np, "bool_" if dt == "bool" else dt)) for dt in NP_DTYPES for sh in SHAPES]
         self.scalar_vals = [True, 1, 1.5, 1j, np.bool_(True), np.float32(1), np.int8(1), np.complex64(1), np.uint8(1), "x", None, object(), Duck2((2,), "float32")]
+        NS = self.atom("DuckNamesake")
+        self.scalar_vals += [NS((2,), "float32"), NS((2, 3), "int32"), NS((), "float32")]
         few_np = [np.zeros(sh, dt) for dt in (np.float32, np.int32) for sh in ((), (2,), (2, 3))]
         few_duck = [Duck(sh, dt) for dt in ("float32", "int32") for sh in ((), (2,), (2, 3))]
         self.vals = {
@@ -128,6 +133,14 @@ class Env:
         if name.startswith("nest:"):
             _, c, a, s = name.split(":")
             return self.cat(c)[self.atom(a), s]
+        if name == "DuckNamesake":
+            # a different array class with the same __name__ / __qualname__ as Duck
+            if not hasattr(self, "_namesake"):
+                ns = type("Duck", (), {"__slots__": ("shape", "dtype"), "__init__": lambda o, shape, dtype="float32": (setattr(o, "shape", tuple(shape)), setattr(o, "dtype", dtype)) and None})
+                ns.__qualname__ = self.Duck.__qualname__
+                ns.__module__ = self.Duck.__module__
+                self._namesake = ns
+            return self._namesake
         return {"Duck": self.Duck, "Duck2": self.Duck2, "ndarray": np.ndarray, "Any": self.typing.Any, "bool": bool, "int": int, "float": float, "complex": complex, "np.bool_": np.bool_, "np.number": np.number}[name]
 
     def fresh_cat(self, memb):
@@ -545,7 +558,7 @@ def run(ctx):
         contexts=[c for c, _ in CONTEXTS],
         bounds=("8" if ctx.quick else "16")
         + " categories (all ordered pairs) x 8x8 dim strings x {Duck, np.ndarray, Any}; 3-level nesting over 4 categories x 4 dim strings; "
-        "9 unions x 2 spellings, 11 TypeVars, 6 scalar types x 10 dim strings x categories; 7 alias laws; probes: Duck x "
+        "11 unions x 2 spellings, 12 TypeVars, 6 scalar types x 10 dim strings x categories; 7 alias laws; probes: Duck x "
         + str(1 + len(DUCK_DTYPES_QUICK if ctx.quick else rd.UNIVERSE))
         + " dtype names x 15 shapes, ndarray x 7 dtypes x 15 shapes, 13 scalars/non-arrays, 3 contexts + sequel",
     )
